@@ -89,10 +89,12 @@ def sendPgn (cfg : Cfg) (s : St) (now dp pf ps prio sa : Nat) (data : List Nat) 
       let size := data.length
       let n := Tp21.num_packets size
       if dest == Const.Addr.GLOBAL then
-        let rec_ : Snd := { pgn := PGN.value pgn, priority := prio, messageSize := size, numPackages := n, data := data,
+        -- a PDU1 PGN sent to the global address: PS is the destination, not part of the announced PGN
+        let pgnB := if PGN.is_pdu1_format pgn then PGN.value { pgn with pdu_specific := 0 } else PGN.value pgn
+        let rec_ : Snd := { pgn := pgnB, priority := prio, messageSize := size, numPackages := n, data := data,
                             state := S_SENDING_BM, deadline := now + cfg.bamInterval, src := sa, dest := Const.Addr.GLOBAL,
                             next := 0, waitOn := none }
-        ({ st := { s with snd := s.snd.set h rec_ }, outs := [.tx (Tp21.bam sa prio (PGN.value pgn) size n), .wake] }, true)
+        ({ st := { s with snd := s.snd.set h rec_ }, outs := [.tx (Tp21.bam sa prio pgnB size n), .wake] }, true)
       else
         let pgn0 := PGN.value { pgn with pdu_specific := 0 }
         let rec_ : Snd := { pgn := pgn0, priority := prio, messageSize := size, numPackages := n, data := data,
